@@ -111,5 +111,64 @@ pub fn check(a: &Analysis, _aux: &mut Aux, t: &mut Tally) -> Vec<Violation> {
         }
         judge(p0, s0.reply_app.as_deref(), &carrier, a.steps[s0.si].idx, t, &mut v);
     }
+    // Segments after the identification: once the connection's byte stream holds one complete
+    // identification string ending at a segment boundary, a later segment that is not itself an
+    // identification string (a retransmitted tail, key-exchange bytes, garbage) must not draw the
+    // banner again - whether the responder reads segments one by one or as a stream. A later
+    // segment that is a whole identification string of its own is a don't-care (a per-segment
+    // reader answers it, a stream reader does not).
+    for st in a.tcp_streams() {
+        if st.dirty || st.segs.is_empty() {
+            continue;
+        }
+        let mut done: Option<usize> = None;
+        for (k, sg) in st.segs.iter().enumerate() {
+            let pre = &st.stream[..sg.off + sg.len];
+            if b"SSH-2.0".starts_with(pre) || b"SSH-1.99".starts_with(pre) {
+                continue; // still inside the signature
+            }
+            match ssh::classify(pre) {
+                SshClass::Complete { .. } => {
+                    done = Some(k);
+                    break;
+                }
+                SshClass::Unterminated => continue,
+                _ => break,
+            }
+        }
+        let k = match done {
+            Some(k) => k,
+            None => continue,
+        };
+        let v6 = matches!(st.flow.src, std::net::IpAddr::V6(_));
+        for sg in st.segs.iter().skip(k + 1) {
+            if sg.len == 0 {
+                continue;
+            }
+            let p = &st.stream[sg.off..sg.off + sg.len];
+            match ssh::classify(p) {
+                SshClass::Complete { .. } => t.any("second-identification-on-the-connection"),
+                SshClass::DontCare(w) => t.any(w),
+                // an identification string of another protocol version, or a malformed one: a
+                // per-segment reader may see a (second) identification in it
+                _ if p.starts_with(b"SSH-") => t.any("later-segment-shaped-like-an-identification"),
+                _ => {
+                    t.judged(Verdict::Silent, format!("tcp{}|ssh|after-banner|{}", if v6 { 6 } else { 4 }, if k > 0 { "cut" } else { "whole" }));
+                    if k > 0 {
+                        t.probe("segment-after-an-identification-cut-into-segments");
+                    }
+                    if sg.reply_app.as_deref().map(|r| r.starts_with(b"SSH-")).unwrap_or(false) {
+                        v.push(Violation {
+                            prop: "C18",
+                            rule: "ssh-answered".into(),
+                            key: "ssh-answered:after-banner".into(),
+                            step: a.steps[sg.si].idx,
+                            detail: format!("a segment of {} bytes that is no identification string, sent after the connection's identification, was answered with the banner", p.len()),
+                        });
+                    }
+                }
+            }
+        }
+    }
     v
 }
